@@ -6,6 +6,7 @@ import gens as G
 import anneal_common as A
 
 ID = "C11"
+ISOLATE = True      # the implementation side runs in child processes: a crash of the C extension is reported, not fatal
 IMPORTS = "From QV.Model Require Import Base Matrix Convert Reduce Anneal.\nFrom QV.Corr Require Import C11."
 CASE_TYPE = "(cin * cout)"
 RUN, EQB = "run_case", "out_eqb"
